@@ -43,3 +43,10 @@ Example C16_witness_pre_fix_repaired :
   | Err _ => False
   end.
 Proof. vm_compute. reflexivity. Qed.
+
+From Wh Require Import Parse Glue GlueP.
+From Coq Require Import ZArith QArith.
+
+(* "when told not to": --no-calls is what switches the calling of compositions off *)
+Theorem C16_calls_off_flag : forall c cfg, console_cfg c = Ok cfg -> bc_calls cfg = negb (cl_no_calls c).
+Proof. exact calls_off_flag. Qed.
